@@ -12,6 +12,19 @@ use serde_json::{json, Value};
 use std::collections::{BTreeMap, BTreeSet};
 
 pub const TOPICS: [&str; 4] = ["a", "ab", "b", ""];
+/// topic #i: the four short ones, then (random part and one enumerated family) topics whose
+/// subscription message sits at the short/long frame boundary (253..256 bytes) and a long one
+pub const N_TOPICS: u8 = 9;
+pub fn topic_str(i: u8) -> String {
+    match i {
+        0..=3 => TOPICS[i as usize].to_string(),
+        4 => "q".repeat(253),
+        5 => "q".repeat(254),
+        6 => "q".repeat(255),
+        7 => "q".repeat(256),
+        _ => "w".repeat(70_000),
+    }
+}
 
 /// bytes a SUB socket without identity writes for greeting + READY
 pub const SUB_HANDSHAKE_LEN: usize = 64 + 2 + 6 + 1 + 11 + 4 + 3;
@@ -106,7 +119,7 @@ pub fn sub_outcome(c: &SubCase) -> Outcome {
             }
             // API history: set semantics and whether set == counting semantics per topic
             let mut set: BTreeSet<u8> = BTreeSet::new();
-            let coincide = [true; 4];
+            let coincide = [true; N_TOPICS as usize];
             let mut call: Option<usize> = None;
             let mut any_sub_before_join = false;
             let mut repeated_topic = false;
@@ -160,7 +173,7 @@ pub fn sub_outcome(c: &SubCase) -> Outcome {
                 match op {
                     Op::Sub(t) | Op::Unsub(t) => {
                         finish_call!();
-                        let t = *t % 4;
+                        let t = *t % N_TOPICS;
                         let on = matches!(op, Op::Sub(_));
                         if on {
                             if set.contains(&t) {
@@ -178,7 +191,10 @@ pub fn sub_outcome(c: &SubCase) -> Outcome {
                                 p.join_overlapped_call = true;
                             }
                         }
-                        let a = sim.subscribe(s, TOPICS[t as usize], on);
+                        if t >= 4 {
+                            classes.push("boundary-length-topic".into());
+                        }
+                        let a = sim.subscribe(s, &topic_str(t), on);
                         call = Some(a);
                         sim.poll(a);
                     }
@@ -296,8 +312,10 @@ pub fn sub_outcome(c: &SubCase) -> Outcome {
                 }
             }
             let any_broken = peers.iter().any(|p| p.broken);
-            for (ti, topic) in TOPICS.iter().enumerate() {
-                let tb = topic.as_bytes().to_vec();
+            for ti in 0..N_TOPICS as usize {
+                let topic = topic_str(ti as u8);
+                let topic = if topic.len() > 20 { format!("{}... ({} bytes)", &topic[..4], topic.len()) } else { topic };
+                let tb = topic_str(ti as u8).into_bytes();
                 let subscribed: Vec<(usize, bool, i64)> = views.iter().map(|(j, v)| (*j, v.get(&tb).copied().unwrap_or(0) > 0, v.get(&tb).copied().unwrap_or(0))).collect();
                 let want = set.contains(&(ti as u8));
                 // (i) agreement among live peers
@@ -377,8 +395,8 @@ pub fn gen_sub(s: &mut Src<'_>) -> SubCase {
     let allow_break = s.chance(1, 4);
     for _ in 0..n {
         let op = match s.weighted(&[6, 4, 3, 2, 4, 2, if allow_break { 1 } else { 0 }, 1]) {
-            0 => Op::Sub(s.below(4) as u8),
-            1 => Op::Unsub(s.below(4) as u8),
+            0 => Op::Sub(if s.chance(1, 5) { s.range(4, N_TOPICS as usize - 1) } else { s.below(4) } as u8),
+            1 => Op::Unsub(if s.chance(1, 5) { s.range(4, N_TOPICS as usize - 1) } else { s.below(4) } as u8),
             2 => Op::Join {
                 xpub: s.bool(),
                 stall: if s.chance(1, 2) { Some(s.pick(&[0usize, 0, 1, 3, 5])) } else { None },
@@ -404,6 +422,8 @@ pub fn run(ctx: &Ctx) -> (Report, PropertyMeta) {
         vec![Op::Sub(0), Op::Sub(0), Op::Unsub(0), Op::Sub(1), Op::Unsub(1), Op::Unsub(1)],
         vec![Op::Unsub(0), Op::Sub(2), Op::Sub(1), Op::Unsub(2), Op::Sub(2), Op::Unsub(1)],
         vec![Op::Sub(3), Op::Sub(0), Op::Unsub(3), Op::Unsub(0), Op::Sub(0), Op::Sub(1)],
+        // topics whose subscription message is 254..257 / 70001 bytes long
+        vec![Op::Sub(5), Op::Sub(4), Op::Unsub(5), Op::Sub(6), Op::Sub(7), Op::Sub(8)],
     ];
     let mut cases = vec![];
     for h in &hist {
@@ -491,13 +511,14 @@ pub fn run(ctx: &Ctx) -> (Report, PropertyMeta) {
     health(&mut report, "join-after-subscribe", total, 300);
     health(&mut report, "join-overlaps-a-call", total, 50);
     health(&mut report, "repeated-topic", total, 100);
+    health_abs(&mut report, "boundary-length-topic", 300);
     health_abs(&mut report, "one-broken-peer", 300);
     health_abs(&mut report, "peer-comes-back-under-its-identity", 300);
 
     let _ = refcodec::hex;
     let meta = PropertyMeta {
         level: "exploration",
-        rule: "proptest histories on a real SUB socket: subscribe/unsubscribe calls over 4 topics (repeats and never-subscribed topics included) interleaved with raw PUB/XPUB peers joining through the real handshake as separate actors, a joiner's connection optionally stalled right after the handshake so that its join is suspended between the socket reading its subscription set and registering the peer while calls run, optionally one peer whose writes fail, peers coming back under their announced identity; plus a targeted enumeration of join and come-back positions. Oracle at quiescence: each live peer's wire is folded into per-topic counts the way a publisher does (+1/-1, floored); (i) all live peers agree on whether each topic is subscribed; (ii) the agreed value equals the socket's subscription SET after the API history (a repeated subscribe changes nothing) and no peer holds more than one subscription for a topic; (iii) a peer that announced a fixed identity and comes back under it while the socket has not noticed that its old connection is dead (Rejoin) is, from then on, the new connection and is held to (i)-(ii) like any other; (iv) with one broken peer every other peer is still updated and no call panics or hangs. Non-trivial = a join after a subscribe, or overlapping a call, or a repeated topic; distinct by case".into(),
+        rule: "proptest histories on a real SUB socket: subscribe/unsubscribe calls over 4 short topics plus topics of 253 / 254 / 255 / 256 / 70000 bytes (repeats and never-subscribed topics included) interleaved with raw PUB/XPUB peers joining through the real handshake as separate actors, a joiner's connection optionally stalled right after the handshake so that its join is suspended between the socket reading its subscription set and registering the peer while calls run, optionally one peer whose writes fail, peers coming back under their announced identity; plus a targeted enumeration of join and come-back positions. Oracle at quiescence: each live peer's wire is folded into per-topic counts the way a publisher does (+1/-1, floored); (i) all live peers agree on whether each topic is subscribed; (ii) the agreed value equals the socket's subscription SET after the API history (a repeated subscribe changes nothing) and no peer holds more than one subscription for a topic; (iii) a peer that announced a fixed identity and comes back under it while the socket has not noticed that its old connection is dead (Rejoin) is, from then on, the new connection and is held to (i)-(ii) like any other; (iv) with one broken peer every other peer is still updated and no call panics or hangs. Non-trivial = a join after a subscribe, or overlapping a call, or a repeated topic; distinct by case".into(),
         assumptions: vec![
             "joins by connect() cannot overlap a call (&mut self); only accept-path joins are generated as concurrent actors".into(),
             "interleaving at await granularity (DESIGN §2.3)".into(),
